@@ -134,14 +134,12 @@ def nested_tag_score(modname: str, outer: str):
     import importlib
     mod = importlib.import_module(modname)
     tree = ast.parse(Path(mod.__file__).read_text())
-    fn = None
-    for n in ast.walk(tree):
-        if isinstance(n, ast.FunctionDef) and n.name == outer:
-            for m in ast.walk(n):
-                if isinstance(m, ast.FunctionDef) and m.name == "tag_score":
-                    fn = m
-    if fn is None:
-        raise RuntimeError(f"tag_score not found in {modname}.{outer}")
+    # the one function named tag_score of the module, wherever it is nested (`outer` names where it lived when the
+    # model was written; a move inside the module is fine, two different copies in one module are not)
+    fns = [n for n in ast.walk(tree) if isinstance(n, ast.FunctionDef) and n.name == "tag_score"]
+    if len(fns) != 1:
+        raise RuntimeError(f"expected exactly one tag_score in {modname}, found {len(fns)}")
+    fn = fns[0]
     code = compile(ast.Module(body=[fn], type_ignores=[]), f"<tag_score of {modname}>", "exec")
     ns: dict[str, Any] = {"re": re}
     exec(code, ns)
